@@ -24,12 +24,23 @@ open PvModel.Signers PvProofs.Lemmas.Signers PvProofs.Lemmas.SignersCallers
 /-- "Writing a Scope": the roles of the scope spec are present in the proposed owners, the
 PROVENANCE rule holds for them, and — if the scope exists — with rollup all `optional = false`
 existing owners are covered and each required role has its own covered existing owner; without
-rollup (and a change) all existing owners are covered.  A new scope asks for no signature. -/
-theorem writeScope_only_when (env : Env) (hv : env.valid "" = false) (existing : Option Scope)
-    (proposed : Scope) (roles : List Role) (signers : List Addr)
-    (h : validateWriteScope env existing proposed roles signers = .ok ()) :
-    Spec.rolesPresent proposed.owners roles = true ∧ Spec.provenanceRoleOk env proposed.owners = true
-      ∧ (Spec.writeScopeReq existing proposed roles).ok env "WriteScope" signers = true := by
+rollup (and a change) all existing owners are covered.  A new scope asks for no signature.
+
+FULL STATEMENT (false of the code, see `writeScope_spec_swap_accepted`): for the roles
+`existingRoles` of the stored scope's specification and `proposedRoles` of the specification
+the proposed scope names,
+`validateWriteScope env existing proposed proposedRoles signers = .ok () →
+  (Spec.writeScopeReq existing proposed existingRoles).ok env "WriteScope" signers`.
+PARTIAL: it holds when the write keeps the specification (`proposedRoles = existingRoles`);
+what is missing is any tie between the two specifications in `ValidateWriteScope`
+(scope.go:472 looks the specification up with `proposed.SpecificationId` only). -/
+theorem writeScope_only_when_partial (env : Env) (hv : env.valid "" = false) (existing : Option Scope)
+    (proposed : Scope) (existingRoles proposedRoles : List Role) (signers : List Addr)
+    (hsame : proposedRoles = existingRoles)
+    (h : validateWriteScope env existing proposed proposedRoles signers = .ok ()) :
+    Spec.rolesPresent proposed.owners proposedRoles = true ∧ Spec.provenanceRoleOk env proposed.owners = true
+      ∧ (Spec.writeScopeReq existing proposed existingRoles).ok env "WriteScope" signers = true := by
+  subst hsame
   unfold validateWriteScope at h
   simp only [orElse_ok_iff, validateRolesPresent_accepts_iff, validateProvenanceRole_fresh_iff] at h
   obtain ⟨h1, h2, h3⟩ := h
@@ -51,13 +62,31 @@ theorem writeScope_only_when (env : Env) (hv : env.valid "" = false) (existing :
         rw [withoutPartiesOk_getPartyAddresses] at this
         simpa [Spec.Req.ok] using this
 
+/-- The stored rollup scope of the witness: `A` OWNER and `B` SERVICER, both optional; its
+specification requires an OWNER. -/
+def swapExisting : Scope := { owners := [⟨"A", 5, true⟩, ⟨"B", 2, true⟩], rollup := true }
+/-- What `B` proposes: itself as the only owner, under another specification (`other` differs)
+that requires a SERVICER. -/
+def swapProposed : Scope := { owners := [⟨"B", 2, true⟩], rollup := true, other := 1000 }
+
+/-- DEFECT WITNESS (known finding C10-scope-spec-swap, replayed on the real keeper by
+corpus/C10/signers.boundary.ops): signed by `B` alone, the update is rejected under the stored
+scope's specification, but the same signer rewrites the scope — dropping `A` — by naming a
+specification that requires only its own role; the documented requirement (an OWNER of the
+existing scope signs) is not met. -/
+theorem writeScope_spec_swap_accepted :
+    validateWriteScope exEnv (some swapExisting) swapExisting [5] ["B"] ≠ .ok ()
+    ∧ validateWriteScope exEnv (some swapExisting) swapProposed [2] ["B"] = .ok ()
+    ∧ (Spec.writeScopeReq (some swapExisting) swapProposed [5]).ok exEnv "WriteScope" ["B"] = false := by
+  decide
+
 theorem writeScope_iff (env : Env) (hv : env.valid "" = false) (existing : Option Scope)
     (proposed : Scope) (roles : List Role) (signers : List Addr) (hnc : NoContracts env signers) :
     validateWriteScope env existing proposed roles signers = .ok () ↔
       Spec.rolesPresent proposed.owners roles = true ∧ Spec.provenanceRoleOk env proposed.owners = true
         ∧ (Spec.writeScopeReq existing proposed roles).ok env "WriteScope" signers = true := by
   constructor
-  · exact writeScope_only_when env hv existing proposed roles signers
+  · exact writeScope_only_when_partial env hv existing proposed roles roles signers rfl
   · rintro ⟨h1, h2, h3⟩
     unfold validateWriteScope
     simp only [orElse_ok_iff, validateRolesPresent_accepts_iff, validateProvenanceRole_fresh_iff]
